@@ -162,6 +162,9 @@ public:
     // state of the first iteration as the numeric type forms it: the uniform default, or the user's
     // grid / raw weights rounded to T
     virtual std::vector<ld> first_state_input(Plan const& p) const = 0;
+    // relative error of the variance weighted combination of the first k results, k = 1..n, formed in
+    // the numeric type with the library's public accumulate, exactly as the built-in callback forms it
+    virtual std::vector<ld> combined_rel_errors() const = 0;
     // bitwise comparison of two checkpoints' generators
     virtual bool same_generator(IWorld const& other) const = 0;
 };
